@@ -23,6 +23,8 @@ def _run_one(mod, case):
     """impl + model + oracle for a single case (used by shrinking and replay)"""
     impl = core.run_impl_cases(mod.__name__, [case], workers=1)[0]
     model = None
+    if impl.get("obs") and str(impl["obs"][0]).startswith("HARNESS-ERROR"):
+        return impl, None, [{"clause": "harness-error", "detail": impl["obs"][0], "signature": {"clause": "harness-error"}}], None
     if getattr(mod, "DRIVER", None):
         m = core.run_model_cases(mod.DRIVER, [mod.model_input(case, impl)])
         model = m[0] if m else None
@@ -121,8 +123,14 @@ def run_check(modname: str, tier: str, replay: str | None = None) -> int:
     impl_res = core.run_impl_cases(mod.__name__, cases)
     model_res = None
     model_broken = False
+    def _is_err(r):
+        return bool(r.get("obs")) and str(r["obs"][0]).startswith("HARNESS-ERROR")
+
     if getattr(mod, "DRIVER", None):
-        model_res = core.run_model_cases(mod.DRIVER, [mod.model_input(c, r) for c, r in zip(cases, impl_res)])
+        # a case the implementation did not survive (exception out of the runner, per-case watchdog) has no
+        # observations to feed back; it is reported on its own below
+        model_res = core.run_model_cases(
+            mod.DRIVER, [[] if _is_err(r) else mod.model_input(c, r) for c, r in zip(cases, impl_res)])
         if model_res is None:
             model_broken = True
 
